@@ -28,7 +28,7 @@ func c01Profile(wide bool) *sm.Profile {
 		Crit:        gen.CritEnv{Val: gen.ValCfg{MaxDepth: 1, NonUTF8: true, Wide: wide}, GoKinds: true, MaxDepth: 4},
 		Weights: []sm.W{{"createcoll", 5}, {"insert", 14}, {"save", 4}, {"replace", 4}, {"updatebyid", 6}, {"update", 5},
 			{"updatefunc", 5}, {"delete", 4}, {"deletebyid", 5}, {"createindex", 6}, {"dropindex", 2}, {"dropcoll", 1},
-			{"find", 34}, {"foreach", 6}, {"findbyid", 6}},
+			{"find", 30}, {"iterate", 5}, {"foreach", 6}, {"findbyid", 6}},
 	}
 	if wide {
 		// integers beyond 2^53 are only generated while no index exists (keys are float64 by design)
@@ -88,7 +88,7 @@ func TestC01(t *testing.T) {
 	if ev.Thorough() {
 		backends = append(backends, run.BadgerMem)
 	}
-	check(t, "C01", cases(8000, 160000), ev.Scale(20, 30), func(rt *rapid.T) {
+	check(t, "C01", cases(14000, 250000), ev.Scale(20, 30), func(rt *rapid.T) {
 		wide := rapid.IntRange(0, 3).Draw(rt, "wide") == 0
 		backend := rapid.SampledFrom(backends).Draw(rt, "backend")
 		p := c01Profile(wide)
